@@ -1190,7 +1190,18 @@ func registerReflectModel(e *Engine) {
 		if m == nil {
 			m = &MapV{}
 		}
-		k := st.rpayload(asRVal(st, a[0]))
+		kv := asRVal(st, a[0])
+		if kv.Typ != nil && kv.Typ.GoType != nil && !types.AssignableTo(kv.Typ.GoType, mt.Key()) {
+			st.rpanic("reflect.Value.MapIndex: value of type %s is not assignable to type %s", kv.Typ.GoType, mt.Key())
+		}
+		k := st.rpayload(kv)
+		if _, isI := k.(*IfaceV); !isI && kv.Kind != rkInterface && types.IsInterface(mt.Key()) {
+			gt := kv.Typ.GoType
+			if gt == nil {
+				gt = kindGoType(kv.Kind)
+			}
+			k = &IfaceV{T: gt, V: k}
+		}
 		val, ok := st.mapLookup(m, k, mt.Elem())
 		if !st.Branch(ok) {
 			return &RVal{}
@@ -1212,6 +1223,9 @@ func registerReflectModel(e *Engine) {
 				return &IfaceV{T: gt, V: p}
 			}
 			return p
+		}
+		if kv := asRVal(st, a[0]); kv.Typ != nil && kv.Typ.GoType != nil && !types.AssignableTo(kv.Typ.GoType, mt.Key()) {
+			st.rpanic("reflect.Value.SetMapIndex: value of type %s is not assignable to type %s", kv.Typ.GoType, mt.Key())
 		}
 		k := box(asRVal(st, a[0]), mt.Key())
 		e := asRVal(st, a[1])
